@@ -612,19 +612,20 @@ impl PathIssueManager {
         // Broadcast issue
         self.issue_broadcast_tx.send((id, marker.clone())).ok();
 
-        // Insert issue
-        self.fifo_issues.push_back((id, marker.timestamp)); // Store timestamp for matching on removal
-        self.cache.insert(id, marker);
-
-        // Evict the oldest issues until both structures are within bounds again. The FIFO entry of
-        // an issue which was reported again since is stale (its timestamp no longer matches) and
-        // evicts nothing; left in place such entries would accumulate without bound and let the
-        // cache outgrow its maximum.
-        while (self.cache.len() > self.max_entries || self.fifo_issues.len() > self.max_entries)
-            && !self.fifo_issues.is_empty()
+        // Make room in both structures. The FIFO entry of an issue which was reported again since
+        // is stale (its timestamp no longer matches) and evicts nothing; left in place such entries
+        // would accumulate without bound and let the cache outgrow its maximum.
+        let needs_cache_slot = !self.cache.contains_key(&id);
+        while !self.fifo_issues.is_empty()
+            && ((needs_cache_slot && self.cache.len() >= self.max_entries)
+                || self.fifo_issues.len() >= self.max_entries)
         {
             self.pop_front();
         }
+
+        // Insert issue
+        self.fifo_issues.push_back((id, marker.timestamp)); // Store timestamp for matching on removal
+        self.cache.insert(id, marker);
     }
 
     /// Applies all cached issues to the given path.
